@@ -1,4 +1,7 @@
 import NunavutVerif.Lemmas.Deps
+import NunavutVerif.Lemmas.DepsOpts
+import NunavutVerif.Lemmas.Names
+import NunavutVerif.Gen.OptionDomain
 /-!
 # C06 — generated code builds on its own: the part that is Nunavut's logic
 
@@ -308,6 +311,59 @@ theorem C06_facilities_covered_cpp (pcfg : Namespace.Cfg) (o : Opts) (t : Top) (
       · exact cov_limits f (Or.inl hl)
       · exact cov_support ho hsp
 
+/-! ### every option map the command line and `properties.yaml` document
+
+`OptsOkCpp` is met by construction for every option map the tree under check documents: the option tables are the
+generated ones (`Gen/CppDefaults`, `Gen/CliOptions`, `Gen/SupportFiles`, `Gen/OptionDomain` — regenerated from the tree on
+every run), pushed through the model of `_validate_language_options` / `standard_version` (`Model/DepsOpts.lean`). -/
+
+/-- T2 (C++, any validated option map, e.g. from a `--configuration` file): if the map delivers its includes
+(`mapDelivers`: the allocator include is given when a constructor convention other than `default` is selected, the
+variable-length-array include is given), then for every type shape, `use_standard_types` on or off, serialization support
+enabled or omitted, every facility the generated header uses or may use is provided by one of its own `#include`s. -/
+theorem C06_facilities_covered_cpp_map (pcfg : Namespace.Cfg) (m : OptMap) (hd : mapDelivers m = true)
+    (omitSer useStd preferSys : Bool) (sup : List Str) (hsup : omitSer = false → sup ≠ []) (o : Opts)
+    (ho : cppOptsOf m omitSer useStd preferSys sup = .ok o) (t : Top)
+    (incs : List Str) (h : emitted .cpp pcfg o t = .ok incs) :
+    ∀ f ∈ facilities .cpp o t, covered .cpp o incs f = true := by
+  obtain ⟨h1, _, _, h4, _⟩ := cppOptsOf_ok ho
+  obtain ⟨ha, hv⟩ := delivers_alloc ho hd
+  exact C06_facilities_covered_cpp pcfg o t ⟨ha, fun _ => hv, fun hom => by rw [h4]; exact hsup (by rw [← h1]; exact hom)⟩ incs h
+
+/-- T2 (C++, the command line): for **every** choice of `--language-standard` the argparse definition offers (and for
+none given), with or without `--omit-serialization-support`, `use_standard_types` / `prefer_system_includes` either way,
+the option map `_validate_language_options` produces from the shipped `options` / `defaults` resolves, and for every type
+shape every facility the generated header uses or may use is provided by one of its own `#include`s.  No hypothesis on the
+options is left: the other documented options (`target_endianness`, `omit_float_serialization_support`,
+`enable_serialization_asserts`, `enable_override_variable_array_capacity`, `cast_format`, …) do not enter the include logic
+nor `facilities` (the tie scans headers generated under them). -/
+theorem C06_facilities_covered_cpp_cli (std : Option String) (hstd : std ∈ none :: languageStandardChoices.map some)
+    (omitSer useStd preferSys : Bool) :
+    ∃ o, cliOpts std omitSer useStd preferSys = .ok o ∧
+      ∀ (pcfg : Namespace.Cfg) (t : Top) (incs : List Str), emitted .cpp pcfg o t = .ok incs →
+        ∀ f ∈ facilities .cpp o t, covered .cpp o incs f = true := by
+  have hall : ∀ s ∈ none :: languageStandardChoices.map some, cliDelivers s = true := by decide
+  obtain ⟨m, sup, o, _, _, hne, hd, hc, ho⟩ := cliOpts_of_delivers (hall std hstd) omitSer useStd preferSys
+  exact ⟨o, ho, fun pcfg t incs h => C06_facilities_covered_cpp_map pcfg m hd omitSer useStd preferSys sup (fun _ => hne) o hc t incs h⟩
+
+/-- The documented values of one C++ option (`Gen/OptionDomain.lean`, C17's translator: `properties.yaml` options and
+defaults, CLI choices). -/
+def docStrValues (key : String) : List String :=
+  (NunavutVerif.Options.Gen.domainCpp.filter (fun d => d.key = key)).flatMap
+    (fun d => d.values.filterMap (fun v => match v with | .str s => some s | _ => none))
+
+/-- T2 (the product of documented values): over **all** combinations of documented values of `allocator_include`,
+`variable_array_type_include` and `ctor_convention`, the combination delivers its includes exactly when it does not
+select an allocator-aware constructor convention with an empty `allocator_include` — the variable-length-array include
+is never empty in the documented domain.  That one region is accepted by `_validate_language_options` (which only asks for
+`allocator_type`) and does not compile: known finding `cpp-allocator-without-include`, witness below. -/
+theorem C06_documented_values_deliver_iff :
+    ∀ a ∈ docStrValues "allocator_include", ∀ v ∈ docStrValues "variable_array_type_include",
+      ∀ c ∈ docStrValues "ctor_convention",
+        mapDelivers (.cons "allocator_include" (.scalar ("s:" ++ a)) (.cons "variable_array_type_include" (.scalar ("s:" ++ v))
+          (.cons "ctor_convention" (.scalar ("s:" ++ c)) .nil))) = true ↔ (c = "default" ∨ a ≠ "") := by
+  decide
+
 /-! ### the unchanged code: negations on witnesses -/
 
 section BeforeFix
@@ -351,12 +407,45 @@ example : ∃ incs, emittedBeforeFix .cpp wCfg (wOpts true 17) wEmptyFixed = .ok
 /-- Python with omitted support imported the support module that is not written. -/
 example : lit "nunavut_support" ∈ pyModuleImportsBeforeFix (wOpts true 0) false ∧ lit "nunavut_support" ∉ pyAvailable (wOpts true 0) := by
   decide
+/-- C++ with `use_standard_types: false` (fixed in 3a07e2e): `<array>` / `<bitset>` were dropped although the declarations
+spell `std::array` / `std::bitset` regardless: uncovered before, covered now. -/
+def wNoStd : Opts := { wOpts true 17 with useStd := false }
+def wArrays : Top := .msg (.mk (wName "B") false true [.fixedArr .bool, .fixedArr .int] []) false
+example : ∃ incs, emittedCppBeforeStdFix wCfg wNoStd wArrays = .ok incs ∧
+    Fac.xBitset ∈ facMust .cpp wNoStd wArrays ∧ covered .cpp wNoStd incs .xBitset = false ∧
+    Fac.xArray ∈ facMust .cpp wNoStd wArrays ∧ covered .cpp wNoStd incs .xArray = false :=
+  ⟨_, rfl, by decide, by decide, by decide, by decide⟩
+example : ∃ incs, emitted .cpp wCfg wNoStd wArrays = .ok incs ∧
+    covered .cpp wNoStd incs .xBitset = true ∧ covered .cpp wNoStd incs .xArray = true := ⟨_, rfl, by decide, by decide⟩
 end BeforeFix
+
+/-! ### the hypotheses of `OptsOkCpp` are necessary (what is outside the documented option maps) -/
+
+/-- An allocator-aware constructor convention with an empty `allocator_include` (accepted by
+`_validate_language_options`, which only asks for `allocator_type`): nothing provides the allocator type.  Replayed on
+the real generator by the harness (configuration `cpp/c++17+alloc-noinclude+omit`, known finding). -/
+example : ∃ incs, emitted .cpp wCfg { wOpts true 17 with allocCtor := true } wEmptyFixed = .ok incs ∧
+    Fac.xAlloc ∈ facMust .cpp { wOpts true 17 with allocCtor := true } wEmptyFixed ∧
+    covered .cpp { wOpts true 17 with allocCtor := true } incs .xAlloc = false := ⟨_, rfl, by decide, by decide⟩
+/-- An empty `variable_array_type_include` (not a documented value) with a variable-length array: nothing provides the
+array template. -/
+example : ∃ incs, emitted .cpp wCfg { wOpts true 17 with vlaInc := [] } (.msg (.mk (wName "L") false true [.varArr .int] []) false) = .ok incs ∧
+    covered .cpp { wOpts true 17 with vlaInc := [] } incs .xVla = false := ⟨_, rfl, by decide⟩
 
 /-! ### non-vacuity: the hypotheses are met by ordinary inputs -/
 
 example : OptsOkCpp (wOpts false 17) wDelimitedUnion := ⟨by decide, by decide, by decide⟩
 example : ∃ incs, emitted .cpp wCfg (wOpts true 14) wSealedUnion = .ok incs ∧ incs ≠ [] := ⟨_, rfl, by decide⟩
+/-- The command-line theorem is about something: six standards are offered, and e.g. `c++17-pmr` resolves to the PMR
+group (`std` 17, `<memory_resource>`, `<vector>`, allocator-aware constructors, the generated support header). -/
+example : languageStandardChoices.length = 6 := by decide
+example : (cliOpts (some "c++17-pmr") false true false).toOption.map
+      (fun o => (o.omitSer, o.useStd, o.std, o.allocInc, o.vlaInc, o.allocCtor, o.support))
+    = some ((false, true, 17, lit "<memory_resource>", lit "<vector>", true, [lit "nunavut/support/serialization.hpp"]) :
+        Bool × Bool × Nat × List Char × List Char × Bool × List (List Char)) := by
+  rfl
+example : (docStrValues "allocator_include").length = 3 ∧ (docStrValues "ctor_convention").length = 3
+    ∧ (docStrValues "variable_array_type_include").length = 2 := by decide
 /-- A nested type: the include of the dependency is its `make_path`. -/
 example : emitted .c wCfg (wOpts true 0) (.msg (.mk (wName "N") false true [.comp (.mk (wName "D") false true [.bool] [])] []) false)
     = .ok [lit "\"w/D_1_0.h\"", lit "<stdlib.h>", hAssert, hStdbool, hStddef, hStdint] := by decide
@@ -447,5 +536,110 @@ theorem C06_close_namespace_depth (names : List Str) (hn : ∀ n ∈ names, plai
   | cons n ns =>
     have := key (n :: ns).reverse (fun x hx => hn x (List.mem_reverse.mp hx)) d (by simp)
     simpa [closeNamespace] using this
+
+end NunavutVerif.Deps
+
+/-! ## 4. identifiers of distinct DSDL entities in one translation unit
+
+`Model/Names.lean`: the C / C++ reference names of composite types and the `#define`s of a C header.  Stropping enters as
+the function `strop` (the real table on the tie; C09 proves its properties); collisions *through* stropping are excluded by
+the property statement, so injectivity of `strop` on the names involved is a hypothesis where it is needed. -/
+namespace NunavutVerif.Deps
+open NunavutVerif.Names hiding lit
+open NunavutVerif.Namespace (Str shortVer joinWith map_injOn shortVer_inj)
+
+/-- T4a (C++): the qualified name `ns₁::…::nsₖ::Short_M_m` identifies (namespace components, short name, major, minor):
+two composite types (also the request / response types nested in services) with the same qualified name are the same
+type, provided stropping does not fold the names involved and its results are identifiers (no `:`). -/
+theorem C06_cpp_qualified_names_injective (strop : Str → Str) (enable : Bool) (t u : TName)
+    (hid : ∀ p ∈ cppParts strop enable t ++ cppParts strop enable u, ':' ∉ p)
+    (hcomps : ∀ a ∈ t.ns, ∀ b ∈ u.ns, estrop strop enable a = estrop strop enable b → a = b)
+    (hname : estrop strop enable (shortVer t) = estrop strop enable (shortVer u) → shortVer t = shortVer u)
+    (h : cppFullRef strop enable t = cppFullRef strop enable u) : t = u := by
+  have hp := joinWith_inj ':' [':'] (cppParts strop enable t) (cppParts strop enable u) (by simp [cppParts])
+    (by simp [cppParts]) (fun x hx => hid x (List.mem_append_left _ hx)) (fun x hx => hid x (List.mem_append_right _ hx)) h
+  obtain ⟨h1, h2⟩ := List.append_inj' hp rfl
+  obtain ⟨h3, h4, h5⟩ := shortVer_inj (hname (List.cons.inj h2).1)
+  have h6 := map_injOn (estrop strop enable) t.ns u.ns hcomps h1
+  cases t; cases u; simp_all
+
+/-- T4b (C): exactly when two composite types get the same C reference name `ns₁_…_nsₖ_Short_M_m`: the versions agree
+and the namespace components and the short name, *cut at their underscores*, give the same sequence of words — where
+one name ends and the next begins is lost (`a.b_c` / `a_b.c`).  (`hname`: stropping does not fold the two joined names;
+void when stropping is off.) -/
+theorem C06_c_reference_name_collision_iff (strop : Str → Str) (enable : Bool) (t u : TName)
+    (hname : estrop strop enable (joinWith ['_'] (t.ns ++ [shortVer t])) = estrop strop enable (joinWith ['_'] (u.ns ++ [shortVer u]))
+      → joinWith ['_'] (t.ns ++ [shortVer t]) = joinWith ['_'] (u.ns ++ [shortVer u])) :
+    cFullRef strop enable t = cFullRef strop enable u ↔ (cWords t = cWords u ∧ t.major = u.major ∧ t.minor = u.minor) := by
+  constructor
+  · intro h
+    exact (cJoin_eq_iff t u).1 (hname h)
+  · intro h
+    unfold cFullRef
+    rw [(cJoin_eq_iff t u).2 h]
+
+/-- T4c (C): hence among types whose namespace components and short names contain no underscore the C reference name is
+injective … -/
+theorem C06_c_reference_names_injective_without_underscores (strop : Str → Str) (enable : Bool) (t u : TName)
+    (hname : estrop strop enable (joinWith ['_'] (t.ns ++ [shortVer t])) = estrop strop enable (joinWith ['_'] (u.ns ++ [shortVer u]))
+      → joinWith ['_'] (t.ns ++ [shortVer t]) = joinWith ['_'] (u.ns ++ [shortVer u]))
+    (ht : ∀ x ∈ t.ns ++ [t.short], '_' ∉ x) (hu : ∀ x ∈ u.ns ++ [u.short], '_' ∉ x)
+    (h : cFullRef strop enable t = cFullRef strop enable u) : t = u := by
+  obtain ⟨hw, hM, hm⟩ := (C06_c_reference_name_collision_iff strop enable t u hname).1 h
+  unfold cWords at hw
+  rw [flatMap_splitU_of_no_underscore _ ht, flatMap_splitU_of_no_underscore _ hu] at hw
+  obtain ⟨h1, h2⟩ := List.append_inj' hw rfl
+  cases t; cases u; simp_all
+
+/-- … and in general it is not: the witness the harness replays on the real generator and compiler (corpus
+`name_twins`, finding `c-reference-name-collision`). -/
+example : cFullRef id false ⟨[lit "nm", lit "a"], lit "b_c", 1, 0⟩ = cFullRef id false ⟨[lit "nm", lit "a_b"], lit "c", 1, 0⟩
+    ∧ (⟨[lit "nm", lit "a"], lit "b_c", 1, 0⟩ : TName) ≠ ⟨[lit "nm", lit "a_b"], lit "c", 1, 0⟩ := by decide
+/-- The same two types keep different C++ names. -/
+example : cppFullRef id false ⟨[lit "nm", lit "a"], lit "b_c", 1, 0⟩ ≠ cppFullRef id false ⟨[lit "nm", lit "a_b"], lit "c", 1, 0⟩ := by
+  decide
+
+/-- T4d (C): a collision of C reference names is also a collision of include guards: pass 0 of `to_snake_case`, the
+first thing `macrofy` does to the dotted full name, yields the very `_`-join the reference name is made of (the later
+passes, the case change and the stropping are functions of that string).  So the second of two such headers is skipped
+by the preprocessor — the translation unit compiles, with the wrong definition. -/
+theorem C06_c_name_collision_is_guard_collision (t u : TName) (ht : WordComps (t.ns ++ [t.short]))
+    (hu : WordComps (u.ns ++ [u.short]))
+    (h : joinWith ['_'] (t.ns ++ [t.short]) = joinWith ['_'] (u.ns ++ [u.short])) :
+    snake0 (joinWith ['.'] (t.ns ++ [t.short])) = snake0 (joinWith ['.'] (u.ns ++ [u.short])) := by
+  rw [snake0_dotted _ (by simp) ht, snake0_dotted _ (by simp) hu, h]
+
+/-- T4e (C, inside one header): the `#define`s of a message type are `<ref>_<suffix>` for suffixes of
+`compSuffixSet`, and these are pairwise distinct when the attribute names of the type are (DSDL demands it) and no
+constant is named like a suffix of the templates (`EXTENT_BYTES_`, `FULL_NAME_`, `HAS_FIXED_PORT_ID_`, …) or like
+`<array field>_ARRAY_CAPACITY_` / `<array field>_ARRAY_IS_VARIABLE_LENGTH_` (`constsClear`). -/
+theorem C06_c_macro_names_distinct (ovr : Bool) (ref : Str) (fixedPort : Bool) (c : CompNames)
+    (hnd : (c.fields.map (·.1) ++ c.consts).Nodup) (hclear : constsClear c = true) :
+    (∀ n ∈ cDefinesMsg ovr ref fixedPort c, n ∈ (compSuffixSet c).map (macroName ref))
+    ∧ ((compSuffixSet c).map (macroName ref)).Nodup := by
+  constructor
+  · intro n hn
+    simp only [cDefinesMsg, List.mem_map, List.mem_append] at hn
+    obtain ⟨x, hx, rfl⟩ := hn
+    refine List.mem_map_of_mem ?_
+    rcases hx with hx | hx
+    · show x ∈ fixedSuffixes ++ c.consts ++ derived (arrayFields c)
+      have : x = sHasPort ∨ x = sPort := by
+        split at hx
+        · simpa using hx
+        · exact Or.inl (by simpa using hx)
+      rcases this with h | h <;> simp [fixedSuffixes, h]
+    · exact compSuffixes_sub ovr c x hx
+  · exact nodup_map_of_inj _ (fun _ _ e => macroName_inj ref e) _ (compSuffixSet_nodup c hnd hclear)
+
+/-- Without `constsClear` it fails: `uint8 EXTENT_BYTES_ = 1` defines `<ref>_EXTENT_BYTES_` twice (the harness replays
+this on the real generator: corpus `name_clash`, finding `c-constant-named-like-generated-macro`). -/
+example : constsClear ⟨[], [lit "EXTENT_BYTES_"], false⟩ = false
+    ∧ ¬ (cDefinesMsg false (lit "nm_K_1_0") false ⟨[], [lit "EXTENT_BYTES_"], false⟩).Nodup := by decide
+example : constsClear ⟨[(lit "x", .varArr)], [lit "x_ARRAY_CAPACITY_"], false⟩ = false
+    ∧ ¬ (cDefinesMsg false (lit "nm_K_1_0") false ⟨[(lit "x", .varArr)], [lit "x_ARRAY_CAPACITY_"], false⟩).Nodup := by decide
+/-- Non-vacuity: an ordinary type meets the hypotheses. -/
+example : constsClear ⟨[(lit "x", .varArr), (lit "y", .scalar)], [lit "MAX"], true⟩ = true
+    ∧ (cDefinesMsg true (lit "r") true ⟨[(lit "x", .varArr), (lit "y", .scalar)], [lit "MAX"], true⟩).length = 11 := by decide
 
 end NunavutVerif.Deps
